@@ -8,11 +8,13 @@ PREFIX = "C33"
 CASE_TYPE = "C33_case"
 HARNESS = "lst"
 KNOWN = {}
-RULE = ("one case = one simulated two-participant scenario with RECORDING listeners (dust_dds::dds_async::*_listener "
-        "traits) on three writers / publisher / participant 0 and three readers / subscriber / participant 1, each level "
+RULE = ("one case = one simulated three-participant scenario with RECORDING listeners (dust_dds::dds_async::*_listener "
+        "traits) on six writers / publisher / participant 0 and six readers / subscriber / participant 1 (participant 2 is "
+        "a plain remote peer), each level "
         "with its own (listener installed?, mask) configuration; the script raises publication/subscription matched, "
         "offered/requested incompatible QoS, new data, sample rejected (resource limits), offered/requested deadline "
-        "missed and the two un-match changes, and dumps the recorded calls after each phase; quick = the 128 "
+        "missed and the loss of a match in all three ways (matched endpoint deleted, matched endpoint's QoS update "
+        "incompatible, participant of the matched endpoint removed), and dumps the recorded calls after each phase; quick = the 128 "
         "configurations (3 installed bits x 3 data-available mask bits x data-on-readers bit; the 64 (installed, enabled) "
         "combinations of every other status appear twice) + random per-entity configurations; distinct = distinct "
         "scenario line; non-trivial = some callback was recorded at publisher/subscriber or participant level")
@@ -25,18 +27,22 @@ ASSUMPTIONS = ["a level whose mask enables a status but which has no listener ob
                "the status is consumed there and nothing is called; the stricter reading is characterised by the theorems "
                "C33_strict_reading_eq_unless_swallowed / C33_swallowed_differs",
                "InconsistentTopic is modelled and proved but not raised in the simulation (type lookup between the two simulated "
-               "participants never completes); SampleLost / LivelinessLost / LivelinessChanged are never raised by the implementation",
-               "a lost match is modelled and exercised for the deletion of the matched endpoint (remove_discovered_reader / "
-               "_writer); the two other places where a match is lost (a matched endpoint whose QoS update is incompatible, "
-               "discovery_methods.rs:1204-1222 / 1818-1835, and the removal of a discovered participant, 2815-2860) are not "
-               "modelled: they raise the matched status without running a listener chain"]
+               "participants never completes); SampleLost / LivelinessLost / LivelinessChanged are never raised by the implementation"]
 
 KINDS = ["IT", "ODM", "RDM", "OIQ", "RIQ", "SL", "SR", "DOR", "DA", "LL", "LC", "PM", "SM"]
 WKINDS = ["PM", "OIQ", "ODM"]
 RKINDS = ["SM", "RIQ", "RDM", "SR", "DA"]
 CONST = {"PM": 1, "OIQ": 2, "ODM": 3, "SM": 4, "RIQ": 5, "RDM": 6, "SR": 7, "DA": 0}
-PHASES = [["EvPM 0", "EvPM 2", "EvOIQ 1", "EvSM 0", "EvSM 2", "EvRIQ 1"], ["EvData 0"], ["EvSR 0"],
-          ["EvODM 0", "EvRDM 0"], ["EvPMun 0"], ["EvSMun 2"]]
+NW = NR = 6
+PHASES = [["EvPM 0", "EvPM 2", "EvPM 3", "EvPM 4", "EvPM 5", "EvOIQ 1",
+           "EvSM 0", "EvSM 2", "EvSM 3", "EvSM 4", "EvSM 5", "EvRIQ 1"],
+          ["EvData 0"], ["EvSR 0"], ["EvODM 0", "EvRDM 0"],
+          ["EvPMun 0"],                      # the matched reader is deleted
+          ["EvSMun 2"],                      # the matched writer is deleted
+          ["EvPMupd 3", "EvOIQ 3"],          # the matched reader's QoS update is incompatible
+          ["EvSMupd 4", "EvRIQ 4"],          # the matched writer's QoS update is incompatible
+          ["EvPMgone 5", "EvSMgone 5"],      # the participant of the matched endpoints is removed
+          []]                                # its endpoint disposals arrive afterwards: nothing more
 
 
 def exhaustive(i):
@@ -49,7 +55,7 @@ def exhaustive(i):
     r, sub, p1 = lv(RKINDS, 0), lv(RKINDS, 1), lv(RKINDS, 2)
     if dor:
         sub = (sub[0], sorted(sub[1] + ["DOR"]))
-    return {"W": [w, w, w], "PUB": pub, "P0": p0, "R": [r, r, r], "SUB": sub, "P1": p1}
+    return {"W": [w] * NW, "PUB": pub, "P0": p0, "R": [r] * NR, "SUB": sub, "P1": p1}
 
 
 def rand_level(r, pool):
@@ -70,8 +76,8 @@ def gen(r, tier):
     cases = [exhaustive(i) for i in range(128)]
     wp, rp = WKINDS, RKINDS + ["DOR"]
     for j in range(n_rand):
-        c = {"W": [rand_level(r, wp) for _ in range(3)], "PUB": rand_level(r, wp), "P0": rand_level(r, wp),
-             "R": [rand_level(r, rp) for _ in range(3)], "SUB": rand_level(r, rp), "P1": rand_level(r, rp)}
+        c = {"W": [rand_level(r, wp) for _ in range(NW)], "PUB": rand_level(r, wp), "P0": rand_level(r, wp),
+             "R": [rand_level(r, rp) for _ in range(NR)], "SUB": rand_level(r, rp), "P1": rand_level(r, rp)}
         if j % 2 == 1:
             # half of the random cases reach their configuration through set_listener
             c["SL"] = {k: rand_level(r, wp if k[0] in "W" or k in ("PUB", "P0") else rp) for k in ENT if r.random() < 0.5}
@@ -81,20 +87,25 @@ def gen(r, tier):
 
 def corpus():
     none = (0, [])
-    base = lambda: {"W": [none] * 3, "PUB": none, "P0": none, "R": [none] * 3, "SUB": none, "P1": none}
+    base = lambda: {"W": [none] * NW, "PUB": none, "P0": none, "R": [none] * NR, "SUB": none, "P1": none}
     out = []
     # regression (C33-data-available-no-fallback, fixed 8c56825): subscriber / participant fallback for data-available
-    c = base(); c["R"] = [(1, [])] * 3; c["SUB"] = (1, ["DA"]); c["P1"] = (1, ["DA"]); out.append(c)
-    c = base(); c["R"] = [(1, [])] * 3; c["SUB"] = (1, []); c["P1"] = (1, ["DA"]); out.append(c)
+    c = base(); c["R"] = [(1, [])] * NR; c["SUB"] = (1, ["DA"]); c["P1"] = (1, ["DA"]); out.append(c)
+    c = base(); c["R"] = [(1, [])] * NR; c["SUB"] = (1, []); c["P1"] = (1, ["DA"]); out.append(c)
     # a mask-enabled level without listener consumes the status (nil listener)
-    c = base(); c["R"] = [(0, ["SR", "SM", "DA"])] * 3; c["SUB"] = (1, ["SR", "SM", "DA"]); c["P1"] = (1, KINDS); out.append(c)
+    c = base(); c["R"] = [(0, ["SR", "SM", "DA"])] * NR; c["SUB"] = (1, ["SR", "SM", "DA"]); c["P1"] = (1, KINDS); out.append(c)
     # everything at participant level
     c = base(); c["P0"] = (1, KINDS); c["P1"] = (1, KINDS); out.append(c)
     # regression (C33-unmatch-no-listener, fixed 16b74b1): un-match with entity listeners;
     # (C33-incompatible-qos-repeated, fixed 1fc584d, is covered by every case: the counts are compared exactly)
-    c = base(); c["W"] = [(1, ["PM"])] * 3; c["R"] = [(1, ["SM"])] * 3; out.append(c)
+    c = base(); c["W"] = [(1, ["PM"])] * NW; c["R"] = [(1, ["SM"])] * NR; out.append(c)
+    # regression (C33-unmatch-no-listener-2): a match lost through an incompatible QoS update or the removal
+    # of the participant reaches the publisher's / subscriber's / participant's listener as well
+    c = base(); c["PUB"] = (1, ["PM"]); c["SUB"] = (1, ["SM"]); out.append(c)
+    c = base(); c["W"] = [(1, [])] * NW; c["R"] = [(1, [])] * NR; c["P0"] = (1, ["PM"]); c["P1"] = (1, ["SM"]); out.append(c)
     # configuration reached through set_listener: listener removed / installed / mask replaced
-    c = base(); c["W"] = [(1, ["PM"]), (0, ["OIQ"]), (1, [])]; c["R"] = [(0, []), (1, ["RIQ"]), (1, ["SM"])]
+    c = base(); c["W"] = [(1, ["PM"]), (0, ["OIQ"]), (1, [])] + [(1, ["PM", "OIQ"])] * 3
+    c["R"] = [(0, []), (1, ["RIQ"]), (1, ["SM"])] + [(1, ["SM", "RIQ"])] * 3
     c["PUB"] = (1, KINDS); c["SUB"] = (1, ["SM", "SR"]); c["P1"] = (1, KINDS)
     c["SL"] = {"W0": (1, KINDS), "W1": (1, KINDS), "R0": (1, KINDS), "R2": (0, []), "PUB": (0, []), "SUB": (1, KINDS), "P1": (0, KINDS)}
     out.append(c)
@@ -105,7 +116,7 @@ def lm(l):
     return "l=%d m=%s" % (l[0], ",".join(l[1]) if l[1] else "-")
 
 
-ENT = ["P0", "P1", "PUB", "SUB", "W0", "R0", "W1", "R1", "W2", "R2"]
+ENT = ["P0", "P1", "PUB", "SUB", "W0", "R0", "W1", "R1", "W2", "R2", "W3", "R3", "W4", "R4", "W5", "R5"]
 
 
 def final_cfg(c, key):
@@ -116,11 +127,17 @@ def case_line(c):
     sl = c.get("SL", {})
     # an entity listed in c["SL"] is created with that (old) configuration and re-configured with set_listener
     cr = lambda key: (lm(sl[key]) + " old=1") if key in sl else lm(final_cfg(c, key))
-    s = ["P 0 " + cr("P0"), "P 0 " + cr("P1"), "T 0 a", "T 1 a", "T 0 b", "T 1 b", "T 0 c", "T 1 c",
-         "PUB 0 " + cr("PUB"), "SUB 1 " + cr("SUB"),
+    # participant 2 is the plain remote peer of W5 / R5 (no listeners): its writer / reader have index 6
+    s = ["P 0 " + cr("P0"), "P 0 " + cr("P1"), "P 0", "T 0 a", "T 1 a", "T 0 b", "T 1 b", "T 0 c", "T 1 c",
+         "T 0 d", "T 1 d", "T 0 e", "T 1 e", "T 0 f", "T 2 f", "T 2 g", "T 1 g",
+         "PUB 0 " + cr("PUB"), "SUB 1 " + cr("SUB"), "PUB 2", "SUB 2",
          "W 0 0 rel=1 dl=100000000 " + cr("W0"), "R 0 1 rel=1 dl=100000000 ms=1 mspi=1 " + cr("R0"),
          "W 0 2 rel=0 " + cr("W1"), "R 0 3 rel=1 " + cr("R1"),
-         "W 0 4 rel=1 " + cr("W2"), "R 0 5 rel=1 " + cr("R2")]
+         "W 0 4 rel=1 " + cr("W2"), "R 0 5 rel=1 " + cr("R2"),
+         "W 0 6 rel=1 " + cr("W3"), "R 0 7 rel=1 " + cr("R3"),
+         "W 0 8 rel=1 " + cr("W4"), "R 0 9 rel=1 " + cr("R4"),
+         "W 0 10 rel=1 " + cr("W5"), "R 0 13 rel=1 " + cr("R5"),
+         "W 1 12 rel=1", "R 1 11 rel=1"]
     for key in ENT:
         if key in sl:
             kind, idx = (key[0], key[1]) if key[0] in "WR" else (("P", key[1]) if key[0] == "P" and key[1:].isdigit() else (key, "0"))
@@ -130,7 +147,11 @@ def case_line(c):
          "w 0 1 10 2", "net", "ev",
          "jump 150000000", "net", "ev",
          "delR 0", "net", "pm 0", "ev",
-         "delW 2", "net", "sm 2", "ev"]
+         "delW 2", "net", "sm 2", "ev",
+         "Q R 3 dl=50000000", "net", "pm 3", "ev",
+         "Q W 4 lb=1000000000", "net", "sm 4", "ev",
+         "delall 2", "delP 2", "netw 256", "pm 5", "sm 5", "ev",
+         "net", "ev"]
     return " ; ".join(s)
 
 
@@ -149,12 +170,15 @@ def parse_line(line):
     np = 0
     for o in [x.strip().split() for x in line.split(";")]:
         if o[0] == "P":
-            c["P%d" % np] = parse_lm(o)
+            if np < 2:
+                c["P%d" % np] = parse_lm(o)
             np += 1
         elif o[0] in ("PUB", "SUB"):
-            c[o[0]] = parse_lm(o)
+            if o[0] not in c:
+                c[o[0]] = parse_lm(o)
         elif o[0] in ("W", "R"):
-            c[o[0]].append(parse_lm(o))
+            if len(c[o[0]]) < NW:
+                c[o[0]].append(parse_lm(o))
         elif o[0] == "SL":
             key = o[1] + o[2] if o[1] in "WRP" else o[1]
             new = parse_lm(o)
@@ -192,7 +216,7 @@ def case_term(c, out):
         t = s.split()
         if not t:
             return None
-        if t[0] in ("P", "T", "PUB", "SUB", "W", "R", "w", "delW", "delR", "SL") and (len(t) < 2 or t[1] != "0"):
+        if t[0] in ("P", "T", "PUB", "SUB", "W", "R", "w", "delW", "delR", "SL", "Q", "delall", "delP") and (len(t) < 2 or t[1] != "0"):
             return None
         # the un-match status changes did happen: current_count_change = -1
         # (total_count 1, current_count 0; the *_change fields depend on whether a listener read the status before)
@@ -251,7 +275,6 @@ MANIFEST = {
     "note": ("Trusted: Coq kernel + vm_compute; hand model ListenerModel.v; the simulator harness with recording listeners. "
              "Axioms: none. The three defects found here are fixed in /repo (8c56825, 16b74b1, 1fc584d) and kept as "
              "regression cases. A mask-enabled level without listener object consumes the status (nil listener), as in DDS. "
-             "Not covered: a match lost through an incompatible QoS update or the removal of a participant (no listener "
-             "chain in the code), InconsistentTopic in simulation."),
+             "Not covered: InconsistentTopic in simulation."),
     "technique": "Coq proof (finite case analysis per chain, induction over histories) + whole-stack simulation correspondence",
 }
